@@ -13,7 +13,7 @@ EXPLANATION = (
     "call's own argument) and FunctionArgs is constructed nowhere else; every path of format_token's StringLiteral arm on "
     "which the input quote is not known to be Brackets takes the output quote from get_quote_to_use. Not decided: that every layout path reaches "
     "format_function_args with the right next-node information (value dependent)."
-    "Later rounds: (R-OPT(parens), other direction) a path that keeps the parentheses although should_omit_* holds and no documented condition is known to fail must have looked at the argument's kind. Rounds 17-19: (R-OPT(measure)) suffixes formatted without look-ahead are measured, never returned.")
+    "Later rounds: (R-OPT(parens), other direction) a path that keeps the parentheses although should_omit_* holds and no documented condition is known to fail must have looked at the argument's kind. Rounds 17-19: (R-OPT(measure)) suffixes formatted without look-ahead are measured, never returned. Rounds 20-21: (R-RAWNODE(closure)).")
 ASSUMPTIONS = ["README semantics of the option values as restated in r_opt.py",
                "rustc MIR and Instance::try_resolve are trusted"]
 
